@@ -1055,6 +1055,11 @@ impl MqttClientImpl {
          self.reconnect_options.reconnect_stability_reset_period)
     }
 
+    /// time since the successful CONNACK of the current connection, if any — read-only view for the verification facade
+    pub(crate) fn verif_time_since_successful_connect(&self) -> Option<Duration> {
+        self.successful_connect_time.map(|t| Instant::now() - t)
+    }
+
     /// desired state and whether a stop-with-disconnect is pending — read-only view for the verification facade
     pub(crate) fn verif_desired_state(&self) -> (ClientImplState, bool, bool) {
         (self.desired_state, self.desired_stop_options.is_some(),
